@@ -1505,8 +1505,8 @@ impl<'a, 'b, W: Write> Serializer for &'a mut YamlSerializer<'b, W> {
         } else if name == NAME_TUPLE_COMMENTED {
             Ok(TupleSer::commented(self))
         } else {
-            // Treat as normal block sequence
-            Ok(TupleSer::normal(self))
+            // Treat as a normal sequence
+            Ok(TupleSer::normal(self.serialize_seq(Some(_len))?))
         }
     }
 
@@ -1517,16 +1517,48 @@ impl<'a, 'b, W: Write> Serializer for &'a mut YamlSerializer<'b, W> {
         variant: &'static str,
         _len: usize,
     ) -> Result<Self::SerializeTupleVariant> {
-        if self.at_line_start {
-            self.write_indent(self.depth)?;
+        // `Variant: payload` where the payload is a sequence: write the variant label exactly as
+        // for a newtype variant (see `serialize_newtype_variant`) and hand the fields to the
+        // sequence emitter.
+        let restore_map_depth;
+        if self.pending_space_after_colon {
+            // Value of a mapping key: the variant mapping moves to the next line.
+            self.pending_space_after_colon = false;
+            self.newline()?;
+            let base = self.current_map_depth.unwrap_or(self.depth);
+            self.write_indent(base + 1)?;
+            self.write_plain_or_quoted(variant)?;
+            self.out.write_str(":")?;
+            self.pending_space_after_colon = true;
+            self.at_line_start = false;
+            self.pending_inline_map = false;
+            restore_map_depth = Some(self.current_map_depth.replace(base + 1));
+        } else {
+            if self.at_line_start {
+                self.write_indent(self.depth)?;
+            }
+            self.write_plain_or_quoted(variant)?;
+            self.out.write_str(":")?;
+            self.pending_space_after_colon = true;
+            self.at_line_start = false;
+            self.pending_inline_map = false;
+            restore_map_depth = match self.after_dash_depth.take() {
+                Some(d) => Some(self.current_map_depth.replace(d + 1)),
+                None => None,
+            };
         }
-        self.write_plain_or_quoted(variant)?;
-        self.out.write_str(":\n")?;
-        self.at_line_start = true;
-        let depth_next = self.depth + 1;
+        let SeqSer {
+            ser,
+            depth,
+            flow,
+            first,
+        } = self.serialize_seq(Some(_len))?;
         Ok(TupleVariantSer {
-            ser: self,
-            depth: depth_next,
+            ser,
+            depth,
+            flow,
+            first,
+            restore_map_depth,
         })
     }
 
@@ -1820,6 +1852,9 @@ pub struct TupleSer<'a, 'b, W: Write> {
     /// For normal tuples: target indentation depth.
     /// For weak/strong: temporary storage (ptr id or state).
     depth_for_normal: usize,
+    /// For normal tuples: state of the sequence emitter (flow style, next element is the first).
+    seq_flow: bool,
+    seq_first: bool,
 
     // ---- Extra fields for refactoring/perf/correctness ----
     /// For strong anchors: if Some(id) then we must emit an alias instead of a definition at field #2.
@@ -1841,13 +1876,22 @@ enum TupleKind {
 }
 impl<'a, 'b, W: Write> TupleSer<'a, 'b, W> {
     /// Create a tuple serializer for normal tuple-structs.
-    fn normal(ser: &'a mut YamlSerializer<'b, W>) -> Self {
-        let depth_next = ser.depth + 1;
+    fn normal(seq: SeqSer<'a, 'b, W>) -> Self {
+        // A tuple struct is laid out exactly like a tuple: keep the state of the sequence
+        // emitter and hand every field to it.
+        let SeqSer {
+            ser,
+            depth,
+            flow,
+            first,
+        } = seq;
         Self {
             ser,
             kind: TupleKind::Normal,
             idx: 0,
-            depth_for_normal: depth_next,
+            depth_for_normal: depth,
+            seq_flow: flow,
+            seq_first: first,
             strong_alias_id: None,
             weak_present: false,
             skip_third: false,
@@ -1862,6 +1906,8 @@ impl<'a, 'b, W: Write> TupleSer<'a, 'b, W> {
             kind: TupleKind::AnchorStrong,
             idx: 0,
             depth_for_normal: 0,
+            seq_flow: false,
+            seq_first: true,
             strong_alias_id: None,
             weak_present: false,
             skip_third: false,
@@ -1876,6 +1922,8 @@ impl<'a, 'b, W: Write> TupleSer<'a, 'b, W> {
             kind: TupleKind::AnchorWeak,
             idx: 0,
             depth_for_normal: 0,
+            seq_flow: false,
+            seq_first: true,
             strong_alias_id: None,
             weak_present: false,
             skip_third: false,
@@ -1890,6 +1938,8 @@ impl<'a, 'b, W: Write> TupleSer<'a, 'b, W> {
             kind: TupleKind::Commented,
             idx: 0,
             depth_for_normal: 0,
+            seq_flow: false,
+            seq_first: true,
             strong_alias_id: None,
             weak_present: false,
             skip_third: false,
@@ -1906,16 +1956,14 @@ impl<'a, 'b, W: Write> SerializeTupleStruct for TupleSer<'a, 'b, W> {
     fn serialize_field<T: ?Sized + Serialize>(&mut self, value: &T) -> Result<()> {
         match self.kind {
             TupleKind::Normal => {
-                if self.idx == 0 {
-                    self.ser.write_anchor_for_complex_node()?;
-                    if !self.ser.at_line_start {
-                        self.ser.newline()?;
-                    }
-                }
-                self.ser.write_indent(self.ser.depth + 1)?;
-                self.ser.out.write_str("- ")?;
-                self.ser.at_line_start = false;
-                value.serialize(&mut *self.ser)?;
+                let mut seq = SeqSer {
+                    ser: &mut *self.ser,
+                    depth: self.depth_for_normal,
+                    flow: self.seq_flow,
+                    first: self.seq_first,
+                };
+                SerializeSeq::serialize_element(&mut seq, value)?;
+                self.seq_first = seq.first;
             }
             TupleKind::AnchorStrong => {
                 match self.idx {
@@ -2023,6 +2071,14 @@ impl<'a, 'b, W: Write> SerializeTupleStruct for TupleSer<'a, 'b, W> {
     }
 
     fn end(self) -> Result<()> {
+        if let TupleKind::Normal = self.kind {
+            return SerializeSeq::end(SeqSer {
+                ser: self.ser,
+                depth: self.depth_for_normal,
+                flow: self.seq_flow,
+                first: self.seq_first,
+            });
+        }
         Ok(())
     }
 }
@@ -2037,19 +2093,37 @@ pub struct TupleVariantSer<'a, 'b, W: Write> {
     ser: &'a mut YamlSerializer<'b, W>,
     /// Target indentation depth for the fields.
     depth: usize,
+    /// State of the sequence emitter that lays out the fields.
+    flow: bool,
+    first: bool,
+    /// `current_map_depth` of the enclosing context, put back when the variant ends.
+    restore_map_depth: Option<Option<usize>>,
 }
 impl<'a, 'b, W: Write> SerializeTupleVariant for TupleVariantSer<'a, 'b, W> {
     type Ok = ();
     type Error = Error;
 
     fn serialize_field<T: ?Sized + Serialize>(&mut self, value: &T) -> Result<()> {
-        self.ser.write_indent(self.depth)?;
-        self.ser.out.write_str("- ")?;
-        self.ser.at_line_start = false;
-        value.serialize(&mut *self.ser)
+        let mut seq = SeqSer {
+            ser: &mut *self.ser,
+            depth: self.depth,
+            flow: self.flow,
+            first: self.first,
+        };
+        SerializeSeq::serialize_element(&mut seq, value)?;
+        self.first = seq.first;
+        Ok(())
     }
     fn end(self) -> Result<()> {
-        Ok(())
+        if let Some(prev) = self.restore_map_depth {
+            self.ser.current_map_depth = prev;
+        }
+        SerializeSeq::end(SeqSer {
+            ser: self.ser,
+            depth: self.depth,
+            flow: self.flow,
+            first: self.first,
+        })
     }
 }
 
